@@ -12,6 +12,13 @@ def register(prop, assumptions, outside):
     INFO[prop] = {'assumptions': assumptions, 'outside': outside}
 
 
+MIR_ASSUMPTIONS = [
+    'Engine M: the MIR printed by the installed nightly for the dev profile (debug-assertions off, overflow checks on) has the semantics of the build users run for the encoded kernels',
+    'Engine M: f64 in exact-int semantics (is_max, integer) on integer-valued inputs; the per-operation range side-conditions (|x| <= 2^53, factors <= 2^26) are PROVED by the same query, not assumed',
+    'Engine M: routing is an uninterpreted time-independent function of (from, to) with values in the stated range; dyn ActivityCost is bound to SimpleActivityCost; typed state stores behind RouteState/Dimensions accessors are trusted',
+    'Engine M: closure captures that rustc does not print (edition-2021 disjoint field captures) are recovered from the preceding temporaries and checked against the field types of the closure body',
+]
+
 COMMON_ASSUMPTIONS = [
     'Kani 0.68 / CBMC 6.11 model the compiled MIR of the real crates bit-precisely within the unwinding bounds (unwinding assertions on)',
     'cfg(kani)-only container swap: Dimensions/RouteState/SolutionState index and Tour.jobs are association lists; the std/hashbrown containers themselves are trusted',
@@ -35,7 +42,8 @@ def run(prop):
         common.log(f'no obligations selected for {prop}')
         return common.EXIT_INCONCLUSIVE
     info = INFO[prop]
-    return common.finish(prop, outcomes, t0, assumptions=COMMON_ASSUMPTIONS + info['assumptions'], outside=info['outside'])
+    extra = MIR_ASSUMPTIONS if any(o.engine == 'mirsmt' for o in outcomes) else []
+    return common.finish(prop, outcomes, t0, assumptions=COMMON_ASSUMPTIONS + extra + info['assumptions'], outside=info['outside'])
 
 
 register('C06', [
@@ -90,4 +98,29 @@ register('C18', [
 ], [
     'histories longer than the bound (the inductive step over symbolic n, alpha, beta, mu is not decidable as QF_FP within the caps)',
     'random_argmax / weighted (rejection sampling over generator output), DynamicSelective agent tables (std HashMap), remedian, Noise',
+])
+
+register('C01', [
+    'kernel-level claim: every gate an insertion has to pass (time windows + shift, capacity, distance/duration limits) is decided on tours of bounded length; solver runs are not explored',
+    'single-task jobs (no multi-job root link), one route interval (no reloads), one place x one time window per target',
+], [
+    'the end-to-end quantifier (all problems x configurations x schedules x termination moments): needs the solver to run',
+    'skills/groups/compatibility/tour-order/locked-jobs (string-keyed std hash containers), breaks, reloads, recharge, goal assembly in goal_reader.rs, all search operators',
+])
+register('C03', [
+    'source-of-numbers claim: schedules, tour totals and the cost fold are decided against an independent simulation; the pragmatic writer is not explored',
+], [
+    'solution_writer.rs (stop folding, time formatting, rounding, tags), per-tour statistic split, haversine routing approximation',
+])
+register('C05', [
+    'mechanism claim: the cache-computing functions are total functions of the tour alone (history independence proved per output) and equal the reference recomputation',
+], [
+    'accept_solution_state over a SolutionContext, per-feature solution aggregates, groups/compatibility/tour-order tags (std hash containers)',
+])
+register('C20', [
+    'a route without jobs contributes nothing to the objectives (empty routes are not part of solution.routes), so its change is the whole new tour',
+    'cost objective: one time rate per actor part and NO waiting before/after the insertion (the precondition stated by the property)',
+], [
+    'time-dependent routing; work-balance / compactness / fast-service objectives (non-additive); realisation through a full recreate step',
+    'minimize-unassigned / fleet-usage / total-value estimates (their fitness folds run over InsertionContext)',
 ])
